@@ -181,6 +181,12 @@ func (c *Ctx) modeFacts(b *ssa.BasicBlock, entryCall *ssa.Call) (map[int64]bool,
 		if !mok {
 			continue
 		}
+		// ((mode >> s) & m) == k is (mode & (m << s)) == (k << s)
+		if sh, isShift := val.(*ssa.BinOp); isShift && sh.Op == token.SHR {
+			if n, isConst := constInt(sh.Y); isConst && n >= 0 && n < 32 {
+				val, mask, k = sh.X, mask<<uint(n), k<<uint(n)
+			}
+		}
 		if !c.isFieldOfResult(c.resolve(val), entryCall, "Filemode") {
 			continue
 		}
